@@ -57,7 +57,9 @@ TEXT = {
               "panics are C01's. The located-error theorems are about the model; that the real FRender reports the same line and path flag is "
               'the comparison of the flocs field on every case, not a theorem about the Go code. In a template WITHOUT a path a node at line 0 '
               '(start line 0) carries no more information than the invalid location and is re-located by the enclosing block like it: '
-              'fault_site_in_tree and located_node_fault_sites assume a path or no node at line 0, frender_faulty_located does not. The stream explores at most 1200 call indices per run (first and '
+              'fault_site_in_tree and located_node_fault_sites assume a path or no node at line 0, frender_faulty_located does not. Trial of the tie: with '
+              'TextNode.render changed to wrap the writer\'s error at invalidLoc instead of at the node (every clause of the oracle still holds) '
+              '110 of the 650 quick cases disagree with the model in the flocs field. The stream explores at most 1200 call indices per run (first and '
               'last 600) and runs templates with the engine-registered custom tags through the oracle only.'),
     "technique": ('Lean 4 proof (inductive Stops predicate on interaction trees and a location trace of the node tree, both by induction over the render tree) + '
               'model/implementation correspondence of Write-call sequences and of the location of every single-fault error + fault injection at every call index (first and last 600 beyond 1200 calls) on the implementation'),
